@@ -95,6 +95,12 @@ func (t *Term) String() string {
 			parts = append(parts, t.F[i]+":"+a.String())
 		}
 		s = "upd(" + t.A[0].String() + "){" + strings.Join(parts, ",") + "}"
+	case "acc":
+		var parts []string
+		for i, a := range t.A[1:] {
+			parts = append(parts, t.F[i]+":"+a.String())
+		}
+		s = "acc(" + t.A[0].String() + ";" + strings.Join(parts, ";") + ")"
 	case "list":
 		s = "[" + joinTerms(t.A) + "]"
 	case "phi":
@@ -506,6 +512,14 @@ func (x *TX) load(addr ssa.Value, at ssa.Instruction) *Term {
 	case *ssa.Global:
 		return x.globalTerm(a)
 	case *ssa.FreeVar:
+		if pt, ok := a.Type().(*types.Pointer); ok {
+			if isKeeperType(pt.Elem()) {
+				return mk("k", "k")
+			}
+			if isCtxType(pt.Elem()) {
+				return mk("ctx", "ctx")
+			}
+		}
 		return &Term{Op: "freevar", S: "fv:" + a.Name()}
 	}
 	// pointer obtained elsewhere (parameter, call result, phi …)
@@ -599,7 +613,11 @@ func (x *TX) collectWriters(ptr ssa.Value, path []string, out *[]writer) {
 		case *ssa.Call:
 			x.classifyCallUse(r, ptr, path, out)
 		case *ssa.MakeClosure:
-			*out = append(*out, writer{in: r, path: path, kind: "opaque", why: "captured by closure"})
+			if len(path) == 0 {
+				*out = append(*out, writer{in: r, path: path, val: ptr, kind: "closure"})
+			} else {
+				*out = append(*out, writer{in: r, path: path, kind: "opaque", why: "field address captured by closure"})
+			}
 		case *ssa.Phi:
 			*out = append(*out, writer{in: r, path: path, kind: "opaque", why: "address merged by phi"})
 		case *ssa.Defer, *ssa.Go:
@@ -678,14 +696,73 @@ func pathKey(p []string) string { return strings.Join(p, ".") }
 // instruction at executes.
 func (x *TX) allocValue(a *ssa.Alloc, at ssa.Instruction) *Term {
 	elem := a.Type().(*types.Pointer).Elem()
+	if isKeeperType(elem) {
+		return mk("k", "k")
+	}
+	if isCtxType(elem) {
+		return mk("ctx", "ctx")
+	}
 	if arr, ok := elem.Underlying().(*types.Array); ok {
 		if b, ok := arr.Elem().Underlying().(*types.Basic); ok && b.Kind() == types.Uint8 {
 			return x.bufTerm(a, at)
 		}
 		return x.arrayList(a, arr, at)
 	}
-	var ws []writer
-	x.collectWriters(a, nil, &ws)
+	var ws0, ws, closureWs []writer
+	x.collectWriters(a, nil, &ws0)
+	for _, w := range ws0 {
+		if w.kind == "closure" {
+			closureWs = append(closureWs, w)
+		} else {
+			ws = append(ws, w)
+		}
+	}
+	if len(closureWs) > 0 {
+		return x.closureVar(a, elem, ws, closureWs, at)
+	}
+	return x.allocValueFrom(a, elem, ws, at)
+}
+
+// closureVar: a local captured by reference by closures created in this
+// function: its value is the initial value updated by the closures' stores.
+func (x *TX) closureVar(a *ssa.Alloc, elem types.Type, ws, closureWs []writer, at ssa.Instruction) *Term {
+	initT := x.allocValueFrom(a, elem, ws, at)
+	t := &Term{Op: "acc", A: []*Term{initT}}
+	for _, cw := range closureWs {
+		mc := cw.in.(*ssa.MakeClosure)
+		cfn := mc.Fn.(*ssa.Function)
+		idx := -1
+		for i, b := range mc.Bindings {
+			if b == ssa.Value(a) {
+				idx = i
+			}
+		}
+		if idx < 0 || idx >= len(cfn.FreeVars) {
+			return unknown("closure binding of " + a.Name())
+		}
+		fv := cfn.FreeVars[idx]
+		cx := x.p.tx(cfn)
+		refs := fv.Referrers()
+		if refs != nil {
+			for _, r := range *refs {
+				switch r := r.(type) {
+				case *ssa.Store:
+					if r.Addr == ssa.Value(fv) {
+						t.F = append(t.F, funcName(cfn))
+						t.A = append(t.A, cx.Of(r.Val, r))
+					}
+				case *ssa.UnOp:
+					// read
+				default:
+					return unknown(fmt.Sprintf("captured variable %s used by %T in closure", a.Name(), r))
+				}
+			}
+		}
+	}
+	return t
+}
+
+func (x *TX) allocValueFrom(a *ssa.Alloc, elem types.Type, ws []writer, at ssa.Instruction) *Term {
 	// keep writers that may execute before at
 	var reaching []writer
 	for _, w := range ws {
